@@ -32,7 +32,7 @@ def demo_rc(repo):
         return "timeout"
 
 
-in_place = "C18" in checks
+in_place = False   # experiments regenerate into a private overlay of the Lean project (vh/lean.py)
 res = {"patch": patch, "tier": tier, "seed": seed}
 res["demo_clean_rc"] = demo_rc("/repo")
 if in_place:
